@@ -4,11 +4,13 @@ import specs.checkers_trace as tr
 import specs.binding as binding
 import specs.wrapper as wrapper
 import specs.violation as violation
+import specs.classes as classes
 import specs.invariants as invariants
 import specs.decorate as decorate
 import specs.theorems as theorems
 import specs.types as types
 import specs.decorators as decorators
+import specs.metaclass as metaclass
 from specs.lib import REG
 
 
@@ -27,6 +29,10 @@ DEFN_CONE = ["Contract.__init__", "Invariant.__init__", "Snapshot.__init__", "fi
              "add_postcondition_to_checker", "add_snapshot_to_checker", "require.__init__", "ensure.__init__", "invariant.__init__",
              "snapshot.__init__", "require.__call__", "ensure.__call__", "snapshot.__call__", "decorate_with_checker", "resolve_kwdefaults"]
 DEFN_UNITS = set(DEFN_CONE)
+U.update(_by_addr(metaclass.META_SPECS))
+META_CONE = ["_collapse_invariants", "_collapse_preconditions", "_collapse_postconditions", "_collapse_snapshots", "_decorate_namespace_function",
+             "_dbc_decorate_namespace", "DBCMeta.__new__", "invariant.__call__"]
+META_UNITS = set(META_CONE)
 
 CHECKER_CONE = [
     "_assert_no_invalid_kwargs", "_assert_resolved_kwargs_valid", "select_condition_kwargs", "select_capture_kwargs",
@@ -47,7 +53,18 @@ INV_UNITS = set(INV_CONE)
 WRAPPERS6 = ["decorate_with_checker/wrapper[sync]", "decorate_with_checker/wrapper[async]", "_decorate_with_invariants/wrapper[0]",
              "_decorate_with_invariants/wrapper[1]", "_decorate_with_invariants/wrapper[2]", "_decorate_new_with_invariants/wrapper"]
 
-PROPS = {
+PROPS = {}
+PROPS_LATE = {
+    "C04": dict(units=META_CONE + ["find_checker", "_assert_preconditions", "_assert_preconditions_async", "_assert_postconditions",
+                                   "_assert_postconditions_async"], replay="hist", hints=["two bases", "chain", "gap", "weaken", "constructor"]),
+    "C17": dict(units=META_CONE + ["find_checker", "require.__call__", "ensure.__call__", "snapshot.__call__", "add_precondition_to_checker",
+                                   "add_postcondition_to_checker", "add_snapshot_to_checker", "decorate_with_checker"], replay="hist",
+                hints=["invariant added", "two bases", "chain"]),
+    "C18": dict(units=META_CONE + ["find_checker", "_unpack_pre_snap_posts", "decorate_with_checker", "decorate_with_checker/wrapper[sync]",
+                                   "decorate_with_checker/wrapper[async]", "_assert_preconditions", "_assert_postconditions", "_capture_old"],
+                replay="hist", hints=["chain", "two bases", "invariants along"]),
+    "C14": dict(units=WRAPPERS6 + ["decorate_with_checker", "find_checker", "require.__call__", "ensure.__call__", "snapshot.__call__", "invariant.__call__",
+                                   "resolve_kwdefaults"], replay="defn", hints=["foreign", "single_checker", "disabled"]),
     "C09": dict(units=CHECKER_CONE + ["_assert_invariant", "Contract.__init__", "Invariant.__init__", "require.__init__", "ensure.__init__",
                                       "invariant.__init__"], replay="call", hints=["falsy_error", "error_argument"]),
     "C15": dict(units=DEFN_CONE + CHECKER_CONE + INV_CONE, theorems=[theorems.verify_SLOW], replay="defn", hints=["disabled"]),
@@ -74,6 +91,8 @@ PROPS = {
     "C10": dict(units=["decorate_with_checker/wrapper[sync]", "decorate_with_checker/wrapper[async]"] + INV_CONE, replay="call",
                 hints=["body_recursion", "reentrant"]),
 }
+
+PROPS.update(PROPS_LATE)
 
 # hints for the replay search from the (normalised) name of a failing obligation
 REPLAY_HINTS = [
